@@ -28,7 +28,8 @@ RULE = ('abstract baskets (1-6 sequences; lengths 0-200 biased to 0, 1, 59-61; n
         'db-tag id, empty sequence, interleaved block, append, handle/path transport); keyword stream (literals of the plugins as ids / '
         'residues); ids made of the IDPATTERN database tags followed by ":"; content auto-detection (also with blank lines before the '
         'first header); HISTORY stream: several write/read calls, in-place edits (data, id, reverse, str.replace, header, pop, the same '
-        'BioSeq twice, order), fresh objects, colliding baskets/texts and mutation of returned objects inside one process, every '
+        'BioSeq twice, order), fresh objects, colliding baskets/texts and mutation of returned objects inside one process, the SAME file '
+        'name written in one format after another and read with content detection each time, every '
         'observing step compared with the pure model on the current value; GFF reader-option stream: filt_fast (strings that do / do not '
         'occur in the ##FASTA line, headers, feature lines), filt, default_ftype, comments=[] on written baskets and on foreign texts; '
         'sniffer stream: ids starting with the keywords the other formats\' sniffers look for (LOCUS, ORIGIN, STOCKHOLM, gff, sugar ...), '
@@ -419,7 +420,7 @@ def impl_history(case, d):
         elif kind == 'r':
             _, fmt, text, mutate = st
             try:
-                o1 = do_read(text, fmt, 'sio' if '\r' not in text else 'str', d)
+                o1 = do_read(text, fmt, 'auto-same' if (st[3] and detectable(fmt, text)) else 'sio' if '\r' not in text else 'str', d)
                 r = objs(o1)
                 if mutate:
                     _mutate_result(o1)
@@ -483,7 +484,7 @@ def history_cases(rng, tier):
             r = rng.random()
             if r < 0.45:
                 f = fm if rng.random() < 0.5 else rng.choice(FMTS)          # the same format again, or another one
-                steps.append(['wr', f, rng.choice(['str', 'str', 'sio', 'path']), rng.random() < 0.5])
+                steps.append(['wr', f, rng.choice(['str', 'sio', 'path', 'auto-same', 'auto-same']), rng.random() < 0.5])
                 if rng.random() < 0.3:
                     steps.append(list(steps[-1]))                            # the same call twice
             elif r < 0.75:
@@ -505,7 +506,7 @@ def history_cases(rng, tier):
             ek = rng.choice(['data', 'id', 'reverse', 'replace', 'header', 'dup', 'pop'])
             val = {'data': g_res(rng, 30) or 'C', 'id': rng.choice(['s9', 'renamed', 'tr:A0A1']),
                    'replace': rng.choice([['A', 'C'], ['M', 'K'], ['-', '.'], ['T', 'U'], ['G', 'A']]), 'header': 'new desc'}.get(ek)
-            v = rng.choice(['str', 'sio', 'path'])
+            v = rng.choice(['str', 'sio', 'path', 'auto-same'])
             steps = [['wr', fm, v, rng.random() < 0.5]] + steps + [['edit', ek, rng.randrange(0, 4), val], ['wr', fm, v, False]]
         if not any(st[0] in ('wr', 'r') for st in steps):
             steps.append(['wr', fm, 'str', False])
@@ -973,6 +974,12 @@ def do_write(b, fmt, via, d, mode='w', name='f'):
         if len(b) == 1:
             return b[0].tofmtstr(fmt)
         return b.tofmtstr(fmt)
+    if via == 'auto-same':
+        # ONE file name per process / scratch directory, whatever the format: the name says nothing, the content decides
+        p = d.path('same.dat')
+        b.write(p, fmt)
+        with open(p, newline='') as f:
+            return f.read()
     if via in ('str', 'sio', 'auto-sio', 'auto-bytes', 'auto-txt', 'iter', 'iter-path'):
         if via != 'sio':
             return b.tofmtstr(fmt)
@@ -1011,6 +1018,11 @@ def do_read(text, fmt, via, d):
             return read(io.StringIO(text))
         if via == 'auto-bytes':
             return read(io.BytesIO(text.encode('latin-1')))
+        if via == 'auto-same':      # the same name again and again (with other formats in between): read() detects from the content
+            p = d.path('same.dat')
+            with open(p, 'w', newline='') as f:
+                f.write(text)
+            return read(p)
         if via == 'auto-txt':       # a file name whose extension says nothing about the format
             p = d.path('r.txt')
             with open(p, 'w', newline='') as f:
@@ -1282,7 +1294,7 @@ def valid_case(case):
             if not isinstance(st, list) or not st:
                 return False
             if st[0] == 'wr':
-                if len(st) != 4 or st[1] not in FMTS or st[2] not in ('str', 'sio', 'path'):
+                if len(st) != 4 or st[1] not in FMTS or st[2] not in ('str', 'sio', 'path', 'auto-same'):
                     return False
                 ok = True
             elif st[0] == 'r':
@@ -1847,6 +1859,22 @@ def _edge_checks():
         yield 'write tool', raises(ValueError, lambda: b.write(d.path('t.fasta'), 'fasta', tool='nosuchtool'))
         # neither 'a' nor 'w' in mode and no write_fasta: the third branch of the dispatch (model: write_dispatch f false false)
         yield 'write mode x', raises(RuntimeError, lambda: b.write(d.path('m.fasta'), 'fasta', mode='x'))
+        # iter_(): detection, undetectable input, unknown tool (main.py iter_, same contract as read())
+        from sugar import iter_
+        got = [(s.id, s.data, s.meta._fmt) for s in iter_(io.StringIO('>a d\nAC\nGT\n>b\nMK\n'))]
+        yield 'iter_ detects', None if got == [('a', 'ACGT', 'fasta'), ('b', 'MK', 'fasta')] else 'got %r' % (got,)
+        got = [(s.id, s.data, s.meta._fmt) for s in iter_(io.BytesIO(b'# STOCKHOLM 1.0\na AC\nb GU\n//\n'))]
+        yield 'iter_ detects stockholm', None if got == [('a', 'AC', 'stockholm'), ('b', 'GU', 'stockholm')] else 'got %r' % (got,)
+        yield 'iter_ undetectable', raises(IOError, lambda: list(iter_(io.StringIO('no known format\n'))))
+        yield 'iter_ tool', raises(ValueError, lambda: list(iter_(io.StringIO('>a\nAC\n'), 'fasta', tool='nosuchtool')))
+        # write() to a handle without fmt: there is no name to take the format from (detect_ext swallows the TypeError)
+        yield 'write handle without fmt', raises(IOError, lambda: b.write(io.StringIO()))
+        yield 'tofmtstr without fmt', raises(ValueError, lambda: b.write(None))
+        # the comments list of the Stockholm reader receives the '#' lines
+        cm = []
+        o = read(io.StringIO('# STOCKHOLM 1.0\n# c1\na AC\n#=GF DE x y\n  # c2\na GU\n//\n'), 'stockholm', comments=cm)
+        ok = [(s.id, s.data) for s in o] == [('a', 'ACGU')] and [c.strip() for c in cm if 'STOCKHOLM' not in c] == ['# c1', '# c2']
+        yield 'stockholm comments list', None if ok else 'got %r %r' % ([(s.id, s.data) for s in o], cm)
     # SJSON with features: Feature / Location / Strand / Defect branches of the encoder
     fb = BioBasket([BioSeq('ACGTACGT', id='a'), BioSeq('MKV*', id='b')])
     ft = Feature('gene', [Location(1, 4, strand='-'), Location(5, 7, strand='-')])
